@@ -373,7 +373,8 @@ def gen_case(draw):
     if draw(st.integers(0, 5)) == 0:
         top["props"] = [draw(st.sampled_from([{"name": "VERSION"}, {"name": "CALSCALE"}, {"name": "CALSCALE", "is_not_defined": True}, {"name": "PRODID", "text_match": {"text": "xv", "collation": None, "negate": False}}]))]
     warm = {"name": "VCALENDAR", "comps": [draw(comp_filter(objs))]}
-    return {"objects": [enc_body(o) for o in objs], "filter": top, "warm": warm, "tz": draw(st.sampled_from(TZS)), "fe": draw(st.sampled_from(["wsgi", "aio"]))}
+    late = draw(st.sampled_from([0, 1, 1, 2]))
+    return {"objects": [enc_body(o) for o in objs], "filter": top, "warm": warm, "late": late, "tz": draw(st.sampled_from(TZS)), "fe": draw(st.sampled_from(["wsgi", "aio"]))}
 
 
 def uses_time_range(cf):
@@ -394,29 +395,38 @@ def run_gen_case(case):
         coll = "/user/calendars/q"
         world.request("wsgi", "MKCALENDAR", coll)
         bodies = {}
+        late = min(int(case.get("late") or 0), len(objs) - 1)
+        late_objs = {}
         for i, raw in enumerate(objs):
             name = f"o{i}.ics"
+            if i >= len(objs) - late:
+                late_objs[name] = raw  # stored only after the index has been built (see below)
+                continue
             r = world.request("wsgi", "PUT", coll + "/" + name, [("Content-Type", "text/calendar")], raw)
             if dav.acknowledged(r):
                 bodies[name] = raw
         expected = set()
         unasserted = set()
         skipped = set()
-        for n, raw in bodies.items():
+
+        def classify(n, raw):
             # recurrence expansion is outside the check: objects with RRULE are not asserted for time-range filters
             cal = icalref.parse_one(raw, "VCALENDAR")
             if uses_time_range(flt) and any(filterref.has_rrule(c) or c.get("RECURRENCE-ID") for c in cal.children):
                 skipped.add(n)
-                continue
+                return
             try:
                 v = filterref.calendar_matches(flt, raw, tz)
             except (NotImplementedError, ValueError, KeyError):
                 skipped.add(n)
-                continue
+                return
             if v is None:
                 unasserted.add(n)
             elif v:
                 expected.add(n)
+
+        for n, raw in bodies.items():
+            classify(n, raw)
         r = query(world, case["fe"], coll, flt, case["tz"])
         got, ms = result_names(r)
         if got is None:
@@ -445,10 +455,32 @@ def run_gen_case(case):
                 out["ok"] = False
                 out["violation"] = {"oracle": "calquery", "sig": f"answer-changes-with-repetition:{filter_shape(flt)}", "detail": f"calendar-query {json.dumps(flt)} (tz {case['tz']}): first answer {sorted(gotset)}, repetition {rep + 2} answers {res2}"}
                 return out
+        # objects stored after both filters became indexed; the other filter looks at them first
+        if late_objs:
+            for n, raw in late_objs.items():
+                r = world.request("wsgi", "PUT", coll + "/" + n, [("Content-Type", "text/calendar")], raw)
+                if dav.acknowledged(r):
+                    bodies[n] = raw
+                    classify(n, raw)
+            if case.get("warm"):
+                query(world, "wsgi", coll, case["warm"], case["tz"], data=False)
+            r = query(world, case["fe"], coll, flt, case["tz"])
+            got, ms = result_names(r)
+            if got is None:
+                kf = findings.c11_gen_known_failure(flt, r)
+                if kf:
+                    out["known"][kf] = 1
+                else:
+                    out["ok"] = False
+                    out["violation"] = {"oracle": "calquery", "sig": f"report-failed-after-late-put:{(r.exc or str(r.status)).split('@')[-1].strip()[:50]}", "detail": f"calendar-query {json.dumps(flt)} after {sorted(late_objs)} were stored behind a warm index answered {r.status} {r.exc or r.body[:300]!r}"}
+                return out
+            gotset = set(got)
         asserted = set(bodies) - unasserted - skipped
         diff = (gotset ^ expected) & asserted
         for n in sorted(diff):
             kf = findings.c11_gen_known(flt, bodies[n], n in gotset, tz)
+            if not kf and late_objs:  # this answer came through the index: K5 applies as in C10
+                kf = findings.c10_known(flt, [("ok", (n,) if n in gotset else ()), ("ok", () if n in gotset else (n,))], ["indexed", "reference"], 1, bodies)
             if kf:
                 out["known"][kf] = out["known"].get(kf, 0) + 1
                 continue
@@ -465,7 +497,7 @@ def run_gen_case(case):
                     out["ok"] = False
                     out["violation"] = {"oracle": "calquery", "sig": "calendar-data-differs", "detail": f"calendar-data of {n} differs from GET"}
         out["nontrivial"] = bool(expected) and len(expected) < len(asserted)
-        out["labels"] = ["shape:" + filter_shape(flt)] + (["unasserted"] if unasserted else []) + (["skipped-recurring"] if skipped else [])
+        out["labels"] = ["shape:" + filter_shape(flt)] + ([f"late-put:{len(late_objs)}"] if late_objs else []) + (["unasserted"] if unasserted else []) + (["skipped-recurring"] if skipped else [])
         return out
     finally:
         world.close()
